@@ -75,4 +75,16 @@ theorem c_src_BPlusTree_items_eq : c_src_BPlusTree_items =
 theorem c_src_BPlusTreeIterator_dealloc_eq : c_src_BPlusTreeIterator_dealloc =
     "Py_XDECREF(self->tree); Py_TYPE(self)->tp_free((PyObject *)self);" := rfl
 
+
+/-! ### search and comparison glue: the source text `BPT/C/Search.lean` transcribes (C12) -/
+/-- model: `C.nodeFindPosition` (= `lowerBound` on sorted keys, `C.nodeFindPosition_eq`) -/
+theorem c_src_node_find_position_eq : c_src_node_find_position =
+    "int left = 0; int right = node->num_keys; while (left < right) { int mid = (left + right) / 2; PyObject *mid_key = node_get_key(node, mid); int result = fast_compare_lt(mid_key, key); if (result < 0) { return -1; } if (result) { left = mid + 1; } else { right = mid; } } return left;" := rfl
+/-- model: `C.fastLtInt` for exact ints (`C.fastLtInt_eq`); exact str and the rich-compare fallback are the key type's own order -/
+theorem c_src_fast_compare_lt_eq : c_src_fast_compare_lt =
+    "if (PyLong_CheckExact(a) && PyLong_CheckExact(b)) { long val_a = PyLong_AsLong(a); long val_b = PyLong_AsLong(b); if (!PyErr_Occurred()) { return val_a < val_b ? 1 : 0; } PyErr_Clear(); } if (PyUnicode_CheckExact(a) && PyUnicode_CheckExact(b)) { int result = PyUnicode_Compare(a, b); if (result != -1 || !PyErr_Occurred()) { return result < 0 ? 1 : 0; } PyErr_Clear(); } return PyObject_RichCompareBool(a, b, Py_LT);" := rfl
+/-- model: `C.fastEqInt` for exact ints (`C.fastEqInt_eq`) -/
+theorem c_src_fast_compare_eq_eq : c_src_fast_compare_eq =
+    "if (PyLong_CheckExact(a) && PyLong_CheckExact(b)) { long val_a = PyLong_AsLong(a); long val_b = PyLong_AsLong(b); if (!PyErr_Occurred()) { return val_a == val_b ? 1 : 0; } PyErr_Clear(); } if (PyUnicode_CheckExact(a) && PyUnicode_CheckExact(b)) { int result = PyUnicode_Compare(a, b); if (result != -1 || !PyErr_Occurred()) { return result == 0 ? 1 : 0; } PyErr_Clear(); } return PyObject_RichCompareBool(a, b, Py_EQ);" := rfl
+
 end BPT.TieC
